@@ -79,6 +79,7 @@ inductive Val where
   | int (n : Int)
   | str (s : String)
   | unit
+  | nil                         -- Go's nil (an `any` holding nothing)
   | tup (xs : List Val)
   | seq (xs : List Val)
   | none
@@ -93,6 +94,7 @@ partial def Val.toStr : Val → String
   | .int n => toString n
   | .str s => "\"" ++ s ++ "\""
   | .unit => "unit"
+  | .nil => "nil"
   | .tup xs => "(" ++ ",".intercalate (xs.map Val.toStr) ++ ")"
   | .seq xs => "[" ++ ",".intercalate (xs.map Val.toStr) ++ "]"
   | .none => "None"
